@@ -49,6 +49,9 @@ c.ensure("complete", lambda cx, result, self, items: S.forall_int(lambda p: z3.I
 c.ensure("ascending", lambda cx, result, self, items: z3.And(ascending(result, strict=False),
                                                            z3.Implies(_op(cx, self) != "eq", ascending(result, strict=True))))
 
+c.ensure("eq: the operands themselves", lambda cx, result, self, items: z3.Implies(_op(cx, self) == "eq", z3.And(
+    S.length(result) == S.length(items), S.forall(0, S.length(items), lambda i: S.at(result, i) == S.at(items, i)))))
+
 # inverse: ports is the exact ascending representation of P(op, i0) for ghost operands i0
 d = contract("cisco_acl.port.Port._ports_to_items", dict(self=TObj("Port"), ports=TList(TInt), i0=TList(TInt)), TList(TInt),
              props=("C08",), note="i0 is a ghost parameter (the operands whose port list is written back)")
@@ -63,6 +66,9 @@ d.ensure("meaning", lambda cx, result, self, ports, i0: S.forall_int(
     lambda p: P(_op(cx, self), result, p) == P(_op(cx, self), i0, p)))
 d.ensure("text", lambda cx, result, self, ports, i0: z3.Implies(_op(cx, self) != "neq", z3.And(
     S.length(result) == S.length(i0), S.forall(0, S.length(i0), lambda i: S.at(result, i) == S.at(i0, i)))))
+
+
+d.ensure("valid operands", lambda cx, result, self, ports, i0: valid(_op(cx, self), result))
 
 
 def _gone(ports, k, p):
